@@ -3,11 +3,13 @@
   * model2 cases (`which` in KINDS): the driver's verdict / number / sum of indices (+ guard, allocated dims, written
     coordinates, largest int, sample position) against a DIRECT Python re-evaluation of the C++ index expressions below
     (written from the C++ text: floats where the C++ uses doubles, Fractions where the model uses exact rationals);
-    parameters of the documented domain must give ok=1, parameters outside it (sum_rect windows before/beyond the
-    image, negative border, step 0, small descriptor scales) only have to agree (non-vacuity of the checkers).
-  * surfreal cases: the REAL binary. `_surf.sum_rect(integral, y0, x0, y1, x1)` on arguments the model declares in
-    bounds (also far outside the image on the clamped sides) against `(D - B) - (C - A)` at the model's clamped
-    coordinates; `_surf.pyramid(...)`: the allocated shapes against the model's `dims`, and the support of the written
+    parameters of the documented domain must give ok=1 — since the repair 6faa5ae of `sum_rect` (two-sided clamps, empty
+    image not read) that is EVERY sum_rect / csum_rect / haar / descriptor-sample parameter, windows before or beyond the
+    image, INT_MIN and small descriptor scales included —, parameters outside it (negative border, step 0) only have to
+    agree (non-vacuity of the checkers).
+  * surfreal cases: the REAL binary. `_surf.sum_rect(integral, y0, x0, y1, x1)` on ARBITRARY int arguments (windows that
+    leave the image on any side, empty images) against `(D - B) - (C - A)` at the model's clamped coordinates (0 for an
+    empty image); `_surf.pyramid(...)`: the allocated shapes against the model's `dims`, and the support of the written
     values inside the set of coordinates the model writes; `surf.interest_points`: every point inside the image.
 """
 from __future__ import annotations
@@ -37,11 +39,14 @@ def _i32(v):
 # ---- direct re-evaluation of the C++ index expressions --------------------------------------------------------
 
 def _py_sum_rect(n0, n1, y0, x0, y1, x1, wrap=False):
+    """sum_rect as repaired by 6faa5ae: an empty image is not read, all four corners are clamped into the image"""
     w = _i32 if wrap else (lambda v: v)
-    y0 = max(w(y0 - 1), 0)
-    x0 = max(w(x0 - 1), 0)
-    y1 = min(w(y1 - 1), n0 - 1)
-    x1 = min(w(x1 - 1), n1 - 1)
+    if n0 <= 0 or n1 <= 0:
+        return []
+    y0 = min(max(w(y0 - 1), 0), n0 - 1)
+    x0 = min(max(w(x0 - 1), 0), n1 - 1)
+    y1 = min(max(w(y1 - 1), 0), n0 - 1)
+    x1 = min(max(w(x1 - 1), 0), n1 - 1)
     return [(y0, n0), (x0, n1), (y0, n0), (x1, n1), (y1, n0), (x0, n1), (y1, n0), (x1, n1)]
 
 
@@ -244,10 +249,14 @@ def evaluate_real(case):
             if 'error' in d or d.get('ok') != str(int(ok)):
                 fnd.append(dict(kind='model', key='bounds-model2:sumrect', detail=dict(line=ln, answer=d, direct_ok=ok)))
                 break
-            if not ok:
-                continue                 # the real call would read outside the buffer: never executed here
-            (ya, _), (xa, _), _, (xb, _), (yb, _) = acc[0], acc[1], acc[2], acc[3], acc[4]
-            want = (fi[yb, xb] - fi[ya, xb]) - (fi[yb, xa] - fi[ya, xa])
+            if not ok:                   # cannot happen any more (two-sided clamps): the model and the re-evaluation would be wrong
+                fnd.append(dict(kind='model', key='bounds-model2:sumrect-not-ok', detail=dict(line=ln, answer=d)))
+                break
+            if acc:
+                (ya, _), (xa, _), _, (xb, _), (yb, _) = acc[0], acc[1], acc[2], acc[3], acc[4]
+                want = (fi[yb, xb] - fi[ya, xb]) - (fi[yb, xa] - fi[ya, xa])
+            else:
+                want = 0.0               # empty image: `return 0.` before any read
             got = _surf.sum_rect(fi, *a)
             nn += 1
             if got != want:
@@ -316,7 +325,7 @@ def _sumrect_args(rng, n0, n1):
     R = rng.randint
     lo = [-2 ** 31 + 1, -10 ** 6, -60]            # fine for y0/x0 (clamped to 0)
     hi = [2 ** 31 - 1, 10 ** 6, 60, -2 ** 31]     # fine for y1/x1 (clamped to N-1; INT_MIN wraps to INT_MAX)
-    if rng.random() < 0.6:                        # inside the exact domain, also far outside the image on the clamped sides
+    if rng.random() < 0.6:                        # windows meeting the image (the pinned domain), also far outside on the sides the pinned clamps covered
         y0 = rng.choice([R(-5, n0), R(-5, n0), rng.choice(lo), n0])
         x0 = rng.choice([R(-5, n1), R(-5, n1), rng.choice(lo), n1])
         y1 = rng.choice([max(1, y0 + R(0, 9)), R(1, n0 + 3), rng.choice(hi), 1])
@@ -366,16 +375,15 @@ def cases(rng, tier):
             n0, n1 = rng.choice([0, 1, 1, R(1, 12), R(1, 40)]), rng.choice([0, 1, R(1, 12), R(1, 40), R(1, 40)])
             y0, x0, y1, x1 = _sumrect_args(rng, n0, n1)
             q = dict(n0=n0, n1=n1, y0=y0, x0=x0, y1=y1, x1=x1)
-            # the exact domain (C10_surf_sum_rect_entry_iff); everything else must agree on ok=0
-            dom = (n0 >= 1 and n1 >= 1 and -2 ** 31 < y0 <= n0 and -2 ** 31 < x0 <= n1 and (y1 >= 1 or y1 == -2 ** 31) and (x1 >= 1 or x1 == -2 ** 31))
+            dom = True            # C10_surf_sum_rect_entry_in_bounds: every window, every image size
         elif w == 'csumrect':
-            n0, n1 = R(1, 30), R(1, 30)
+            n0, n1 = rng.choice([0, R(1, 30), R(1, 30), R(1, 30)]), R(0, 30)
             q = dict(n0=n0, n1=n1, y=R(-3, n0 + 2), x=R(-3, n1 + 2), dy=R(-6, 6), dx=R(-6, 6), h=R(-2, 15), w=R(-2, 15))
-            dom = False
+            dom = True            # C10_surf_csum_rect_in_bounds
         elif w == 'surfhaar':
-            n0, n1 = R(1, 30), R(1, 30)
+            n0, n1 = R(0, 30), rng.choice([0, R(1, 30), R(1, 30), R(1, 30)])
             q = dict(n0=n0, n1=n1, y=R(-2, n0 + 2), x=R(-2, n1 + 2), w=rng.choice([0, 0, 1, 2, 2, 4, 6, R(0, 40), -2]))
-            dom = 1 <= q['y'] <= n0 and 1 <= q['x'] <= n1 and q['w'] >= 0      # C10_surf_descriptor_windows_in_bounds
+            dom = True            # C10_surf_haar_in_bounds: rows / columns 0 and negative windows included
         elif w == 'surfpyramid':
             noct, nint, init = rng.choice([1, 1, 2, 3]), rng.choice([1, 2, 3]), rng.choice([1, 1, 2, 3])
             n0, n1 = _pyr_shape(rng, noct, nint, init)
@@ -410,14 +418,14 @@ def cases(rng, tier):
             sn, cs = _rot(rng)
             q = dict(n0=n0, n1=n1, cy=cy, cx=cx, s=s, sn=sn, cs=cs, x=rng.choice([-10, -10, 9, R(-10, 9)]), y=rng.choice([-10, -10, 9, R(-10, 9)]))
             _, ex = _py_descsample(n0, n1, _fr(cy), _fr(cx), _fr(s), _fr(sn), _fr(cs), q['x'], q['y'])
-            # safe domain: border test passed and scale >= 3/2 (15.5*s - 1 >= 14.15*s + 1); the detector produces scale > 1.6.
-            # Smaller scales are outside: the border test does not protect them (C10_surf_descriptor_guard_insufficient, known finding)
-            dom = ex['guard'] == '1' and _fr(s) >= Fraction(3, 2)
+            # every sample is safe since 6faa5ae, whatever the border test says and for every scale
+            # (C10_surf_descriptor_windows_in_bounds; on the pinned clamps only scale >= 3/2 behind the border test was)
+            dom = True
         out.append(dict(kind='model2', which=w, p=q, domain=bool(dom)))
     for k in range(nreal):
         z = k % 4
         if z < 2:
-            n0, n1 = R(1, 25), R(1, 25)
+            n0, n1 = rng.choice([0, R(1, 25), R(1, 25), R(1, 25), R(1, 25)]), rng.choice([0, R(1, 25), R(1, 25), R(1, 25), R(1, 25), R(1, 25)])
             out.append(dict(kind='surfreal', what='sum_rect', shape=[n0, n1], seed=rng.randrange(1 << 30),
                             args=[_sumrect_args(rng, n0, n1) for _ in range(40)]))
         elif z == 2:
